@@ -266,6 +266,9 @@ def run_case(ctx, case):
         d = None if decl == "len" else max(1, (ln + 1) // 2)
         plain = Bf3Component({0xC1: b"\x00"}, ctx.sym("c06-plain", 21))
         comp = Bf3Component(dict(TAGS_ENC), content, d, encrypt_by_session_key=True)
+        if (ln + k) % 2:
+            # the encrypted component FIRST, followed by a plain one (addresses behind a padded ciphertext)
+            return check_written(ctx, o, fr, [content], [comp, plain], key, [], "hand-built len=%d zrun=%d %s, encrypted component first" % (ln, z, fr), d)
         return check_written(ctx, o, fr, [content], [plain, comp], key, [], "hand-built len=%d zrun=%d %s" % (ln, z, fr), d)
     if kind == "notag":
         _, ln, fr = case
